@@ -61,7 +61,7 @@ ASSUME = ["refs/mmaeref.py (log-space Bayes, mixture moments) is the reference; 
           "the weights left by SMM._preWeight are a prior and need not sum to one (property: 'after every update and pruning')",
           "linear stub dynamics/observations replace the environment of the model filters only; ray stand-in for the scenario runs"]
 SHARDS = {"quick": 4, "thorough": 16}
-BUDGET_S = {"quick": 70, "thorough": 560}
+BUDGET_S = {"quick": 70, "thorough": 540}
 DECIDING = ["prob_valid", "keep_one", "bayes", "gpb1_mixing", "prune_exact", "moments_est", "moments_pred", "cov_sym_psd",
             "closure", "handover"]
 MANIFEST = {"technique": "runtime monitoring: recording pre/post wrappers on the real SMM/GPB1 classes driven through generated histories",
@@ -902,7 +902,11 @@ def run_scenario(ctx, w):
         except Exception as e:  # noqa: BLE001
             tb = traceback.extract_tb(e.__traceback__)
             inside = any("estimation/adaptive" in fr.filename for fr in tb)
-            if inside:
+            if inside and isinstance(e, ValueError) and "read-only" in str(e):
+                where = next((f"{fr.filename.rsplit('/', 1)[-1]}:{fr.lineno} `{fr.line}`" for fr in reversed(tb) if "estimation/adaptive" in fr.filename), "?")
+                ctx.check(False, f"{w['name']}-update-writes-read-only-array-in-job", f"MMAE scenario ({w['name']}, mmae_init.json) on the ray stand-in: update assigns "
+                          f"in place into an array that arrived through the job boundary (read-only, as in a Ray task): {where}", dict(w), mon="no_exception")
+            elif inside:
                 ctx.check(False, f"scenario-update-raised-{type(e).__name__}", f"MMAE scenario ({w['name']}) raised inside the adaptive filter: "
                           f"{type(e).__name__}: {e}"[:300], dict(w), mon="no_exception")
             else:
@@ -976,13 +980,12 @@ def run(ctx):
         ctx.count("scenario_runs")
         ctx.count("scenario_mmae_updates_observed", stats.get("bayes_decided", 0) + stats.get("bayes_undecided_ill_conditioned", 0))
         ctx.count("scenario_closures", stats.get("closures", 0))
-    total = ctx.scale(1500, 100_000)
-    n_direct = max(1, total // 6)
-    for i in range(total + n_direct):
+    total = ctx.scale(1750, 100_000)       # every 7th case is a direct prune call
+    for i in range(total):
         if ctx.time_left() < 6:
             ctx.note("stopped_by_budget", True)
             break
-        direct = i >= total
+        direct = i % 7 == 6
         spec = gen_spec(rng, ctx.quick, direct_prune=direct)
         if direct:
             # step 0: an ordinary update (filter-side pruning disabled); then a direct prune with a weight-threshold index set
